@@ -94,8 +94,9 @@ def run(ctx):
   mcs = ["MCT_Pt", "MCT_Pi", "MCT_Qt", "MCT_Qi", "MCT_Rt", "MCT_Ri", "MCT_Dt", "MCT_Di"]
   if not quick:
     mcs += ["MCT_Ai", "MCT_At", "MCT_Bi", "MCT_Bt", "MCT_Ci", "MCT_Ct"]
-  for c in mcs:
-    r = tlc.run("recoco", "MCThreads", c + ".cfg", tag="C07", timeout=2400, coverage=False)
+  res = tlc.run_many([dict(spec_dir="recoco", module="MCThreads", cfg=c + ".cfg", tag="C07", timeout=3000,
+                           coverage=False, workers=4) for c in mcs], parallel=4)
+  for c, r in zip(mcs, res):
     if r.violated:
       raise tlc.TLCError("Threads.tla violates %s in %s:\n%s" % (r.violated, c, r.error_trace[:3000]))
     if r.distinct < 1000:
